@@ -57,6 +57,20 @@ func c03Check(faultKind string) func(w *world.World) []world.Violation {
 	}
 }
 
+// orphanRedirect: node A answers the request for key with a redirect to B (the reply of a fragment whose request has
+// been answered already must be discarded whatever it is, a redirect included)
+func orphanRedirect(kind, key string) world.ReplyFn {
+	return func(w *world.World, bc *world.BConn, args [][]byte) ([]byte, int) {
+		if bc.Addr == AddrA && hasKey(args, key) {
+			if kind == "moved" {
+				return []byte(fmt.Sprintf("-MOVED %d %s\r\n", world.SpecSlot([]byte(key)), AddrB)), 0
+			}
+			return []byte(fmt.Sprintf("-ASK %d %s\r\n", world.SpecSlot([]byte(key)), AddrB)), 0
+		}
+		return nil, 0
+	}
+}
+
 func c03Scenarios(tier string) []*world.Scenario {
 	var out []*world.Scenario
 	b := 3
@@ -91,6 +105,11 @@ func c03Scenarios(tier string) []*world.Scenario {
 			cs := ClientOf([]Req{r, GetReq(keysB[1]), GetReq(keysA[2])}, split)
 			mk(fmt.Sprintf("partial-unowned/%s/one=%v", kind, split), "partial-routing-unowned",
 				&world.Scenario{Nodes: Tgap(), Bound: b, OrderSites: order, Clients: []world.ClientSpec{cs}})
+			for _, rd := range []string{"moved", "ask"} {
+				// the orphan fragment is answered with a redirect
+				mk(fmt.Sprintf("partial-unowned/%s/one=%v/orphan-%s", kind, split, rd), "partial-routing-unowned",
+					&world.Scenario{Nodes: Tgap(), Bound: b, OrderSites: order, Clients: []world.ClientSpec{cs}, Reply: orphanRedirect(rd, keysA[0])})
+			}
 		}
 		// two clients: the victim's request reuses the recycled request object
 		cs0 := ClientOf([]Req{r}, true)
@@ -112,6 +131,10 @@ func c03Scenarios(tier string) []*world.Scenario {
 			cs := ClientOf([]Req{GetReq(keysB[4]), r, GetReq(keysB[1]), GetReq(keysC[2])}, split)
 			mk(fmt.Sprintf("partial-unowned-behind-pending/%s/one=%v", kind, split), "partial-routing-unowned",
 				&world.Scenario{Nodes: Tgap(), Bound: b, OrderSites: order, Clients: []world.ClientSpec{cs}})
+			for _, rd := range []string{"moved", "ask"} {
+				mk(fmt.Sprintf("partial-unowned-behind-pending/%s/one=%v/orphan-%s", kind, split, rd), "partial-routing-unowned",
+					&world.Scenario{Nodes: Tgap(), Bound: b, OrderSites: order, Clients: []world.ClientSpec{cs}, Reply: orphanRedirect(rd, keysA[0])})
+			}
 			cs0 := ClientOf([]Req{GetReq(keysB[4]), r}, split)
 			cs1 := ClientOf([]Req{GetReq(keysB[1]), GetReq(keysC[2])}, false)
 			mk(fmt.Sprintf("partial-unowned-behind-pending-2clients/%s/one=%v", kind, split), "partial-routing-unowned",
@@ -153,6 +176,20 @@ func c03Scenarios(tier string) []*world.Scenario {
 			return nil, 0
 		}
 		mk("timeout-late-reply", "timeout", sc)
+		for _, rd := range []string{"moved", "ask"} {
+			cs2 := cs
+			cs2.ExpectAlt = map[int][]byte{0: world.ValueOf([]byte(stalled))} // redirect followed in time: B's reply
+			sc2 := &world.Scenario{Nodes: T3m(), Bound: b, Clients: []world.ClientSpec{cs2}, TimeoutMs: 100, Ticks: []time.Duration{150 * time.Millisecond}}
+			sc2.TickGate = sc.TickGate
+			inner := orphanRedirect(rd, stalled)
+			sc2.Reply = func(w *world.World, bc *world.BConn, args [][]byte) ([]byte, int) {
+				if r, _ := inner(w, bc, args); r != nil {
+					return r, 1
+				}
+				return nil, 0
+			}
+			mk("timeout-late-reply/late-"+rd, "timeout", sc2)
+		}
 	}
 	// (e) backend connection lost and re-established with requests in flight
 	{
@@ -500,62 +537,84 @@ func c16Scenarios(tier string) []*world.Scenario {
 	}
 	// the request object of a timed-out request is recycled; its late reply arrives before / while the NEXT request, a
 	// split one whose fragments are answered at different times, uses that object: it must be answered completely
-	for _, kind := range []string{"mget", "del", "mset", "get"} {
-		for _, first := range []string{"get", "mget"} {
-			stalled := keysA[0]
-			var r1 Req
-			if first == "get" {
-				r1 = GetReq(stalled)
-			} else {
-				r1 = MGetReq(stalled, keysB[5])
-			}
-			late := r1.Expect
-			r1.Expect = []byte(world.RErrTimeout)
-			var r2 Req
-			switch kind {
-			case "mget":
-				r2 = MGetReq(keysB[1], keysC[1])
-			case "del":
-				r2 = DelReq(keysB[1], keysC[1])
-			case "mset":
-				r2 = MSetReq(keysB[1], "1", keysC[1], "2")
-			default:
-				r2 = GetReq(keysB[1])
-			}
-			r3 := GetReq(keysC[3])
-			cs := ClientOf([]Req{r1, r2, r3}, false)
-			cs.Chunks[1].WaitTicks, cs.Chunks[1].WaitReplies = 1, 1
-			cs.Chunks[2].WaitTicks, cs.Chunks[2].WaitReplies = 1, 1
-			cs.ExpectAlt = map[int][]byte{0: late}
-			sc := &world.Scenario{Nodes: T3m(), Bound: b + 1, Horizon: 300, TimeoutMs: 100, Clients: []world.ClientSpec{cs},
-				Ticks: []time.Duration{150 * time.Millisecond}, Family: "recycled-after-timeout"}
-			nf := 1
-			if first == "mget" {
-				nf = 2
-			}
-			sc.TickGate = func(w *world.World) bool { return len(w.DataCmds("")) >= nf }
-			sc.Reply = func(w *world.World, bc *world.BConn, args [][]byte) ([]byte, int) {
-				if hasKey(args, stalled) {
-					return world.DefaultReply(world.Lower(args[0]), args), 1
+	for _, lateKind := range []string{"value", "moved", "ask", "error"} {
+		for _, kind := range []string{"mget", "del", "mset", "get"} {
+			for _, first := range []string{"get", "mget"} {
+				if lateKind != "value" && (kind == "del" || kind == "mset") {
+					continue
 				}
-				return nil, 0
-			}
-			sc.Name = fmt.Sprintf("C16/recycled-after-timeout/%s-then-%s/d%d", first, kind, sc.Bound)
-			sc.Check = func(w *world.World) []world.Violation {
-				vs := CheckStreams(w, StreamOpts{})
-				for i := range vs {
-					switch vs[i].Sig {
-					case "missing-tail", "closed-with-pending", "unexpected-close":
-						vs[i].Sig = "queue-stuck-after-timeout"
-					case "corrupt", "forwarded-swap":
-						vs[i].Sig = "request-after-timeout-answered-wrongly"
-					case "duplicate", "extra-bytes":
-						vs[i].Sig = "timeout-duplicated-or-late-reply-delivered"
+				lateKind := lateKind
+				stalled := keysA[0]
+				var r1 Req
+				if first == "get" {
+					r1 = GetReq(stalled)
+				} else {
+					r1 = MGetReq(stalled, keysB[5])
+				}
+				late := r1.Expect
+				r1.Expect = []byte(world.RErrTimeout)
+				var r2 Req
+				switch kind {
+				case "mget":
+					r2 = MGetReq(keysB[1], keysC[1])
+				case "del":
+					r2 = DelReq(keysB[1], keysC[1])
+				case "mset":
+					r2 = MSetReq(keysB[1], "1", keysC[1], "2")
+				default:
+					r2 = GetReq(keysB[1])
+				}
+				r3 := GetReq(keysC[3])
+				cs := ClientOf([]Req{r1, r2, r3}, false)
+				cs.Chunks[1].WaitTicks, cs.Chunks[1].WaitReplies = 1, 1
+				cs.Chunks[2].WaitTicks, cs.Chunks[2].WaitReplies = 1, 1
+				cs.ExpectAlt = map[int][]byte{0: late}
+				sc := &world.Scenario{Nodes: T3m(), Bound: b + 1, Horizon: 300, TimeoutMs: 100, Clients: []world.ClientSpec{cs},
+					Ticks: []time.Duration{150 * time.Millisecond}, Family: "recycled-after-timeout"}
+				nf := 1
+				if first == "mget" {
+					nf = 2
+				}
+				sc.TickGate = func(w *world.World) bool { return len(w.DataCmds("")) >= nf }
+				if lateKind == "error" {
+					cs.ExpectAlt = map[int][]byte{0: []byte("-ERR late\r\n")}
+					sc.Clients[0].ExpectAlt = cs.ExpectAlt
+				}
+				sc.Reply = func(w *world.World, bc *world.BConn, args [][]byte) ([]byte, int) {
+					if hasKey(args, stalled) && bc.Addr == AddrA {
+						switch lateKind {
+						case "moved":
+							return []byte(fmt.Sprintf("-MOVED %d %s\r\n", world.SpecSlot([]byte(stalled)), AddrB)), 1
+						case "ask":
+							return []byte(fmt.Sprintf("-ASK %d %s\r\n", world.SpecSlot([]byte(stalled)), AddrB)), 1
+						case "error":
+							return []byte("-ERR late\r\n"), 1
+						}
+						return world.DefaultReply(world.Lower(args[0]), args), 1
 					}
+					return nil, 0
 				}
-				return vs
+				sc.Name = fmt.Sprintf("C16/recycled-after-timeout/%s-then-%s/d%d", first, kind, sc.Bound)
+				if lateKind != "value" {
+					sc.CrashSig = "late-redirect-after-timeout-panics"
+					sc.Name = fmt.Sprintf("C16/recycled-after-timeout/late-%s/%s-then-%s/d%d", lateKind, first, kind, sc.Bound)
+				}
+				sc.Check = func(w *world.World) []world.Violation {
+					vs := CheckStreams(w, StreamOpts{})
+					for i := range vs {
+						switch vs[i].Sig {
+						case "missing-tail", "closed-with-pending", "unexpected-close":
+							vs[i].Sig = "queue-stuck-after-timeout"
+						case "corrupt", "forwarded-swap":
+							vs[i].Sig = "request-after-timeout-answered-wrongly"
+						case "duplicate", "extra-bytes":
+							vs[i].Sig = "timeout-duplicated-or-late-reply-delivered"
+						}
+					}
+					return vs
+				}
+				out = append(out, sc)
 			}
-			out = append(out, sc)
 		}
 	}
 	// after the timeout the stalled node's connection is lost while the NEXT request (which reuses the recycled request
